@@ -672,8 +672,10 @@ def schedule_run(
     currently deliverable ones (at most ``fanout`` candidates), left un-acked if noack[i]; an
     injection (sweep, cancel, signal) happens before delivery step inject_at.  After the symbolic
     choices are used up the run continues in the processor's natural order."""
-    with hx.Path("schedule:%s:%s" % (prop, workload)) as P:
+    with hx.Path("schedule:%s:%s" % (prop, workload if isinstance(workload, str) else "dynamic")) as P:
         with hx.native():
+            if not isinstance(workload, str):
+                workload = workload()  # a workload chosen by symbolic parameters, decoded inside this path
             ref = reference(workload, events, pre=ref_pre, tag=ref_tag) if compare != "none" else None
             w = World(events=events, lock_seconds=lock_seconds)
             try:
@@ -1232,6 +1234,53 @@ def make_post_group(kind: str, members: tuple[str, ...]) -> Callable[[World, dic
         return None
 
     return post
+
+
+def post_mutex_hold(w: World, snap: dict[str, Any], info: dict[str, Any]) -> tuple[str, Any] | None:
+    """Mutex held for a symbolic time: never two holders; the waiting stage runs once the holder has
+    finished - it may give up (TERMINAL, wait budget spent) only while the holder is still unfinished."""
+    members = ("m1", "m2")
+    ids = {w.refs[m]: m for m in members}
+    cur = {m: "NOT_STARTED" for m in members}
+    started: Counter = Counter()
+    gave_up_while_free = None
+    for row in w.audit():
+        if row["tbl"] != "stage" or row["id"] not in ids:
+            continue
+        m = ids[row["id"]]
+        other = [x for x in members if x != m][0]
+        if row["old"] == "NOT_STARTED" and row["new"] == "RUNNING":
+            started[m] += 1
+        if row["old"] == "NOT_STARTED" and row["new"] in ("TERMINAL", "CANCELED", "SKIPPED") and cur[other] in COMPLETE:
+            gave_up_while_free = {"stage": m, "ended": row["new"], "holder": other, "holder_status": cur[other]}
+        cur[m] = row["new"]
+        if sum(1 for s_ in cur.values() if s_ == "RUNNING") > 1:
+            return ("mutex/two_holders_running", {"at_audit_seq": row["seq"]})
+    if gave_up_while_free is not None:
+        return ("mutex/waiter_gave_up_after_holder_finished/%s" % gave_up_while_free["ended"], gave_up_while_free)
+    final = {m: snap["stages"][m]["status"] for m in members}
+    for m in members:
+        if final[m] == "SUCCEEDED" and started[m] != 1:
+            return ("mutex/started_%d_times/%s" % (started[m], m), {"final": final, "started": dict(started)})
+        if final[m] in ("NOT_STARTED", "RUNNING"):
+            return ("mutex/waiting_stage_did_not_run/%s=%s" % (m, final[m]), {"final": final, "started": dict(started)})
+    return None
+
+
+def mutex_hold_run(n_sym: Any, choices: list[Any]) -> bool:
+    """C11 liveness half: the holder keeps the mutex for n polls (n symbolic, 0..MUTEX_HOLD_MAX: below, at and
+    beyond the waiter's wait budget); delivery with the given symbolic choices."""
+    from vf.native import MUTEX_HOLD_MAX
+
+    def pick_workload() -> str:
+        n = 0
+        for k in range(1, MUTEX_HOLD_MAX + 1):
+            if hx.decide_eq(n_sym, k):
+                n = k
+                break
+        return "mutex_hold_%d" % n
+
+    return schedule_run("C11", pick_workload, choices, compare="none", post=post_mutex_hold)  # type: ignore[arg-type]
 
 
 def post_signal_restart(w: World, snap: dict[str, Any], info: dict[str, Any]) -> tuple[str, Any] | None:
